@@ -10,7 +10,7 @@
 (* the conformance harness replays through the real library.  Invariants   *)
 (* on the model itself: shape/denotation consistency, involution laws.     *)
 (***************************************************************************)
-EXTENDS Expr, PyIndex, Catalog, Json, TLC
+EXTENDS Expr, PyIndex, Annot, Catalog, Json, TLC
 
 CONSTANTS MaxLvl,      \* number of combinator applications
           MaxDim,      \* bound on rows and on columns of every tree
@@ -26,6 +26,7 @@ Init == /\ t \in {SeedLeaves[i]: i \in 1..Len(SeedLeaves)}
         /\ lvl = 0
         /\ ok = TRUE
 
+FullSlice == [t |-> "slice", s |-> <<None, None, None>>]
 Ops == {OperandLeaves[i]: i \in 1..Len(OperandLeaves)}
 Small == {SmallLeaves[i]: i \in 1..Len(SmallLeaves)}
 
@@ -46,6 +47,26 @@ Unary(x) ==
                                   /\ FormOK(SliceForms[ij[1]], s[1]) /\ FormOK(SliceForms[ij[2]], s[2])
                                   /\ (ij[1] + ij[2] + s[1]) % SliceStride = 0}}
           ELSE {})
+    \cup (IF "Annot" \in Acts
+          THEN {N("Annot", <<x>>, [ann |-> a]): a \in {b \in AnnNames: Holds(b, Denote(x))}} ELSE {})
+    \cup (IF "op_getitem" \in Acts
+          THEN LET s == ShapeOf(x) IN
+               {N("op_getitem", <<x>>, [rf |-> IndexForms[i], cf |-> IndexForms[j], single |-> FALSE,
+                                        rows |-> Resolve(IndexForms[i], s[1]),
+                                        cols |-> Resolve(IndexForms[j], s[2])]):
+                  <<i, j>> \in {ij \in (1..Len(IndexForms)) \X (1..Len(IndexForms)):
+                                  /\ FormOK(IndexForms[ij[1]], s[1]) /\ FormOK(IndexForms[ij[2]], s[2])
+                                  /\ (IndexForms[ij[1]].t = "list") = (IndexForms[ij[2]].t = "list")
+                                  /\ (IndexForms[ij[1]].t = "list" =>
+                                        Len(IndexForms[ij[1]].v) = Len(IndexForms[ij[2]].v))
+                                  /\ (ij[1] + ij[2] + s[1]) % SliceStride = 0}}
+               \cup
+               {N("op_getitem", <<x>>, [rf |-> IndexForms[i], cf |-> FullSlice, single |-> TRUE,
+                                        rows |-> Resolve(IndexForms[i], s[1]),
+                                        cols |-> Resolve(FullSlice, s[2])]):
+                  i \in {k \in 1..Len(IndexForms): FormOK(IndexForms[k], s[1]) /\ IndexForms[k].t # "list"}}
+          ELSE {})
+    \cup (IF "op_densify" \in Acts THEN {N("op_densify", <<x>>, NoP)} ELSE {})
     \cup (IF "op_scalar" \in Acts
           THEN UNION {{N("op_smul", <<x>>, Scalars[i]), N("op_rsmul", <<x>>, Scalars[i])}: i \in 1..Len(Scalars)}
                \cup {N("op_div", <<x>>, Scalars[i]): i \in {j \in 1..Len(Scalars): ~QIsZero(Scalars[j].c)}}
@@ -75,11 +96,14 @@ Ternary(x, o1, o2) ==
     \cup (IF "op_sum" \in Acts THEN {N("op_sum", <<x, o1, o2>>, NoP)} ELSE {})
 
 \* shape errors are reachable on purpose (the property demands a rejection) when "errors" is enabled
-Accept(n) == IF WellFormed(n) THEN Fits(n) ELSE "errors" \in Acts
+Accept(n) == IF WellFormed(n) THEN Fits(n)
+             ELSE "errors" \in Acts /\ n.k \in {"op_matmul", "op_add", "op_sub", "op_sum", "Product", "Sum"}
+\* results that are arrays, not operators: nothing can be applied to them
+Terminal(n) == n.k \in {"op_getitem", "op_densify"}
 
 Step(n) == /\ ok /\ lvl < MaxLvl
            /\ Accept(n)
-           /\ t' = n /\ lvl' = lvl + 1 /\ ok' = WellFormed(n)
+           /\ t' = n /\ lvl' = lvl + 1 /\ ok' = (WellFormed(n) /\ ~Terminal(n))
 
 Next == \/ \E n \in Unary(t): Step(n)
         \/ \E o \in Ops: \E n \in Binary(t, o): Step(n)
@@ -88,13 +112,13 @@ Next == \/ \E n \in Unary(t): Step(n)
 Spec == Init /\ [][Next]_vars
 
 ---------------------------------------------------------------------------
-Out == IF ok THEN [t |-> t, wf |-> TRUE, dense |-> Denote(t), dt |-> DTypeOf(t), lvl |-> lvl]
+Out == IF WellFormed(t) THEN [t |-> t, wf |-> TRUE, dense |-> Denote(t), dt |-> DTypeOf(t), lvl |-> lvl]
        ELSE [t |-> t, wf |-> FALSE, lvl |-> lvl]
 Emit == IF DoEmit THEN PrintT(ToJson(Out)) ELSE TRUE
 
 \* model-level sanity: the shape calculus agrees with the denotation
-ShapeConsistent == ok => LET d == Denote(t) IN <<d.r, d.c>> = ShapeOf(t)
+ShapeConsistent == WellFormed(t) => LET d == Denote(t) IN <<d.r, d.c>> = ShapeOf(t)
 \* transposing / taking the adjoint twice is the identity on denotations
-Involution == ok => /\ MEq(MTr(MTr(Denote(t))), Denote(t))
+Involution == WellFormed(t) => /\ MEq(MTr(MTr(Denote(t))), Denote(t))
                     /\ MEq(MAdj(MAdj(Denote(t))), Denote(t))
 =============================================================================
